@@ -185,7 +185,7 @@ M("C07", "v2 exemption widened to '.'", F, "v2patterns.py", "        is_semantic
 M("C07", "v2 compiled with IGNORECASE", F, "v2patterns.py", "    pattern_str = _replace_pattern_parts(escaped_pattern)\n    return re.compile(pattern_str)\n\n\n@utils.memo\ndef compile_pattern(version_pattern: str, raw_pattern: typ.Optional[str] = None) -> Pattern:\n    _raw_pattern       = version_pattern if raw_pattern is None else raw_pattern\n    normalized_pattern = normalize_pattern(",
   "    pattern_str = _replace_pattern_parts(escaped_pattern)\n    return re.compile(pattern_str, re.IGNORECASE)\n\n\n@utils.memo\ndef compile_pattern(version_pattern: str, raw_pattern: typ.Optional[str] = None) -> Pattern:\n    _raw_pattern       = version_pattern if raw_pattern is None else raw_pattern\n    normalized_pattern = normalize_pattern(", "flags")
 M("C07", "backslash entry moved last (v1 double escaping)", F, "patterns.py", "RE_PATTERN_ESCAPES = [\n    (\"\\u005c\", \"\\u005c\\u005c\"),\n", "RE_PATTERN_ESCAPES = [\n", "R1", allow_error=True)
-M("C07", "bracket look-behind dropped", F, "v2patterns.py", "re.subn(r\"([^\\\\]|^)\\[\", r\"\\1(?:\", pattern)", "re.subn(r\"(.|^)\\[\", r\"\\1(?:\", pattern)", "backslash escape")
+M("C07", "bracket look-behind dropped", F, "v2patterns.py", "re.subn(r\"([^\\\\]|^)\\[\", r\"\\1(?:\", pattern)", "re.subn(r\"(.|^)\\[\", r\"\\1(?:\", pattern)", "brackets of a search pattern")
 M("C07", "render keeps escaped bracket", F, "v2version.py", "    result = result.replace(r\"\\[\", r\"[\")\n", "", "R5")
 M("C07", "twin: table reordered (backslash still first)", S, "patterns.py", "    (\"-\"     , \"\\u005c-\"),\n    (\".\"     , \"\\u005c.\"),", "    (\".\"     , \"\\u005c.\"),\n    (\"-\"     , \"\\u005c-\"),")
 
